@@ -248,6 +248,42 @@ func (c *Coordinator) gcTargets(changeAbleShards []*shardInfo, active map[uint64
 	}
 }
 
+// resetLostTransfers set in_transfer targets back to normal if no other shard is scraping them,
+// the destination shard may never have received the target, or it is gone
+func (c *Coordinator) resetLostTransfers(shards []*shardInfo) {
+	for _, s := range shards {
+		if s.scraping == nil {
+			// targets of this shard are unknown, it may be the destination of some transfer
+			return
+		}
+	}
+
+	for _, s := range shards {
+		if !s.changeAble {
+			continue
+		}
+
+		for h, tar := range s.scraping {
+			if tar.TargetState != target.StateInTransfer {
+				continue
+			}
+
+			other := false
+			for _, o := range shards {
+				if o != s && o.scraping[h] != nil {
+					other = true
+					break
+				}
+			}
+
+			if !other {
+				c.log.Infof("no other shard is scraping %d, stop transfer from %s", h, s.shard.ID)
+				tar.TargetState = target.StateNormal
+			}
+		}
+	}
+}
+
 // alleviateShards try remove some targets from shards to alleviate shard burden
 func (c *Coordinator) alleviateShards(changeAbleShards []*shardInfo) space {
 	needSpace := space{}
